@@ -210,11 +210,27 @@ def main(chk: Check, build=True):
     def skeleton(n):
         return sio.Skeleton(nodes=[f"n{i}" for i in range(n)])
 
-    def frames_of(gts, prs, scores, n_nodes):
+    def frames_of(gts, prs, scores, n_nodes, style=0):
+        """instances built through the sleap-io API.  `style`: how a missing node (NaN, NaN) is stored - 0: as
+        NaN; 1: every one / 2: the even-numbered ones as FINITE coordinates with `visible=False` (a node placed
+        and then hidden; survives an .slp round trip).  `Instance.numpy()` shows (NaN, NaN) either way - that is
+        the abstraction the model works on; code reading `points["xy"]` sees the finite garbage."""
         sk = skeleton(n_nodes)
-        gi = [sio.Instance.from_numpy(g, sk) for g in gts]
-        pi = [sio.PredictedInstance.from_numpy(p, sk, point_scores=np.ones(n_nodes), score=float(s))
-              for p, s in zip(prs, scores)]
+
+        def mk(a, side, score=None):
+            a = np.array(a, dtype=float).reshape(n_nodes, 2)
+            hidden = [k for k in range(n_nodes) if np.isnan(a[k]).all() and (style == 1 or (style == 2 and k % 2 == 0))]
+            raw = a.copy()
+            for k in hidden:
+                raw[k] = [40.0 + 7 * k, 55.0 + 3 * k] if side == "gt" else [30.0 - 5 * k, 20.0 + 9 * k]
+            inst = (sio.Instance.from_numpy(raw, sk) if score is None else
+                    sio.PredictedInstance.from_numpy(raw, sk, point_scores=np.ones(n_nodes), score=float(score)))
+            for k in hidden:
+                inst.points["visible"][k] = False
+            return inst
+
+        gi = [mk(g, "gt") for g in gts]
+        pi = [mk(p, "pr", s) for p, s in zip(prs, scores)]
         return (sio.LabeledFrame(video=video, frame_idx=0, instances=gi),
                 sio.LabeledFrame(video=video, frame_idx=0, instances=pi), gi, pi)
 
@@ -596,7 +612,8 @@ def main(chk: Check, build=True):
             n_gt, n_pr = len(gts), len(prs)
             n_nodes = len((gts + prs)[0]) if gts + prs else 2
             scores, thr, scale, stddev = list(c["scores"]), c["threshold"], c["scale"], c["stddev"]
-        fg, fp, gi, pi = frames_of(gts, prs, scores, n_nodes)
+        vis_style = (REPLAY.get("match") or {}).get("invisible_style", rng.choice([0, 0, 1, 2]))
+        fg, fp, gi, pi = frames_of(gts, prs, scores, n_nodes, style=vis_style)
         # what match_instances sees is Instance.numpy() (sleap_io turns a point whose x is NaN into
         # (NaN, NaN) and keeps (x, NaN)); the model gets exactly those arrays
         gts = [g.numpy() for g in gi]
@@ -607,19 +624,19 @@ def main(chk: Check, build=True):
             M = np.zeros((n_gt, n_pr))
         flat = [nan2none(v) for v in M.reshape(-1)]
         lines.append(f"match {rat(thr)} {lst(scores, rat)} {n_gt} {n_pr} " + " ".join(rat(v) for v in flat))
-        metas.append((gts, prs, scores, thr, scale, stddev, fg, fp, gi, pi, M))
+        metas.append((gts, prs, scores, thr, scale, stddev, fg, fp, gi, pi, M, vis_style))
     outs = run_driver("C15.lean", lines)
     frame_results = []
     for line, meta, out in zip(lines, metas, outs):
-        gts, prs, scores, thr, scale, stddev, fg, fp, gi, pi, M = meta
+        gts, prs, scores, thr, scale, stddev, fg, fp, gi, pi, M, vis_style = meta
         case = {"gt": [g.tolist() for g in gts], "pr": [p.tolist() for p in prs], "scores": scores,
-                "threshold": thr, "scale": scale, "stddev": stddev}
+                "threshold": thr, "scale": scale, "stddev": stddev, "invisible_style": vis_style}
         asis, ppart, fpart = [s.strip() for s in out.split("|")]
         pt = ppart.split()
         m_pairs = [(int(pt[1 + 3 * k]), int(pt[2 + 3 * k]), float(unrat(pt[3 + 3 * k]))) for k in range(int(pt[0]))]
         m_fn = [int(x) for x in fpart.split()[1:]]
         r = call(ev.match_instances, fg, fp, stddev=stddev, scale=scale, threshold=thr)
-        tags = [f"gt{len(gts)}", f"pr{len(prs)}", f"thr{thr}"]
+        tags = [f"gt{len(gts)}", f"pr{len(prs)}", f"thr{thr}", f"invisible_style{vis_style}"]
         if r[0] == "ok":
             pairs, fns = r[1]
             gidx = lambda mi: next(i for i, x in enumerate(gi) if x is mi.instance)
@@ -848,7 +865,9 @@ if __name__ == "__main__":
             "float32 inputs: up to 1e-6 (d2 and bbox area are formed in float32; measured: oks_max_abs_diff_float32_inputs)",
             "exp enters as a parameter with the Transc laws (realTransc shows they are satisfiable); Float.exp ~ np.exp",
             "scipy.optimize.linear_sum_assignment is a parameter (LsaSpec); its output is checked against the spec each run",
-            "sleap_io LabeledFrame/Instance.numpy() hand the stored points to match_instances unchanged",
+            "match_instances reads instances through Instance.numpy() (invisible nodes -> NaN); instances are built through the "
+            "sleap-io API with missing nodes stored as NaN or as finite coordinates + visible=False, the model works on the "
+            "numpy() abstraction",
             "the matching correspondence runs the model on the OKS matrix the real compute_oks returns for the frame "
             "(a compute_oks defect is the business of part 1, the matching part would not see it)",
         ],
